@@ -603,6 +603,41 @@ pub mod conv2 {
 '''
 
 
+# positive examples for rule L6 (a key matched against an atomic outside the lock that guards the cached value). Never executed.
+SELFTEST_LOCKS = '''
+pub mod selftest_locks {
+    #![allow(warnings)]
+    use std::sync::atomic::{AtomicUsize, Ordering};
+    use std::sync::RwLock;
+    static KEY_HINT: AtomicUsize = AtomicUsize::new(0);
+    static CACHED: RwLock<Option<(usize, u64)>> = RwLock::new(None);
+    /// flawed on purpose: the key is only compared with the atomic, outside the lock
+    pub fn lookup_split_key(key: usize) -> Option<u64> {
+        if KEY_HINT.load(Ordering::Acquire) == key {
+            if let Ok(guard) = CACHED.read() {
+                if let Some((_, value)) = &*guard {
+                    return Some(*value);
+                }
+            }
+        }
+        None
+    }
+    pub fn lookup_rechecked(key: usize) -> Option<u64> {
+        if KEY_HINT.load(Ordering::Acquire) == key {
+            if let Ok(guard) = CACHED.read() {
+                if let Some((cached_key, value)) = &*guard {
+                    if *cached_key == key {
+                        return Some(*value);
+                    }
+                }
+            }
+        }
+        None
+    }
+}
+'''
+
+
 def main():
     ap = argparse.ArgumentParser()
     ap.add_argument("--tier", default="quick")
@@ -615,7 +650,7 @@ def main():
     fam_evo(c, a.tier, rng)
     abi = os.path.join(os.path.dirname(os.path.abspath(__file__)), "abi_family.rs")
     src = "#![allow(warnings)]\n// GENERATED by /verif/corpus/gen.py -- compiled under the analysis driver only, never executed\n" + "\n".join(c.src) + "\n"
-    src += SELFTEST_STATE + CONV2
+    src += SELFTEST_STATE + CONV2 + SELFTEST_LOCKS
     if os.path.exists(abi):
         src += open(abi).read()
         meta_abi = os.path.join(os.path.dirname(os.path.abspath(__file__)), "abi_family.json")
